@@ -271,6 +271,9 @@ func (x *Exec) conversion(st *State, e *ast.CallExpr, to types.Type) Val {
 	from := x.typeOf(arg)
 	v := x.expr(st, arg)
 	c := x.c
+	if isString(to) || isString(from) {
+		x.needStr()
+	}
 	switch {
 	case isString(to) && isSliceT(from):
 		m := x.heapGet(st, memComp(types.Typ[types.Uint8]), x.memSort(types.Typ[types.Uint8]))
@@ -843,7 +846,7 @@ func (x *Exec) modLocations(pre *State, e ast.Expr) []modLoc {
 				return []modLoc{{comp: "ghost.wdata", sort: SArr(SInt, SArr(x.idxSort(), x.byteSort())), ref: v.T}, {comp: "ghost.wlen", sort: SArr(SInt, x.idxSort()), ref: v.T}, {comp: "ghost.wflushed", sort: SArr(SInt, x.idxSort()), ref: v.T}}
 			case "ghostReader":
 				v := x.expr(pre, call.Args[0])
-				return []modLoc{{comp: "ghost.rpos", sort: SArr(SInt, x.idxSort()), ref: v.T}, {comp: "ghost.rfile", sort: SArr(SInt, SInt), ref: v.T}}
+				return []modLoc{{comp: "ghost.rpos", sort: SArr(SInt, x.idxSort()), ref: v.T}, {comp: "ghost.rfile", sort: SArr(SInt, SInt), ref: v.T}, {comp: "ghost.rended", sort: SArr(SInt, SBool), ref: v.T}}
 			case "ghostFilePos":
 				v := x.expr(pre, call.Args[0])
 				return []modLoc{{comp: "ghost.fpos", sort: SArr(SInt, x.idxSort()), ref: v.T}}
@@ -1388,6 +1391,7 @@ func (x *Exec) scanModClause(ms *modSet, mc *Clause) {
 			case "ghostReader":
 				ms.add("ghost.rpos", SArr(SInt, x.idxSort()))
 				ms.add("ghost.rfile", SArr(SInt, SInt))
+				ms.add("ghost.rended", SArr(SInt, SBool))
 				return
 			case "ghostFilePos":
 				ms.add("ghost.fpos", SArr(SInt, x.idxSort()))
